@@ -12,8 +12,8 @@ import (
 	"sync"
 	"time"
 
-	"github.com/btcsuite/btcd/blockchain"
 	"github.com/btcsuite/btcd/address/v2"
+	"github.com/btcsuite/btcd/blockchain"
 	"github.com/btcsuite/btcd/btcec/v2"
 	"github.com/btcsuite/btcd/chaincfg/v2"
 	"github.com/btcsuite/btcd/chainhash/v2"
@@ -26,9 +26,9 @@ import (
 
 // Script kinds of lab outputs.
 const (
-	KTrue   = iota // OP_TRUE (anyone can spend, non-standard)
-	KWPKH          // P2WPKH to the fixed lab key
-	KPKH           // P2PKH to the fixed lab key
+	KTrue = iota // OP_TRUE (anyone can spend, non-standard)
+	KWPKH        // P2WPKH to the fixed lab key
+	KPKH         // P2PKH to the fixed lab key
 	nKinds
 )
 
@@ -433,16 +433,16 @@ func (w *World) Pick(names []string) []*UTx {
 // with two different families.
 func MainWorld(b *Base, thorough bool) *World {
 	w := NewWorld(b, "main")
-	const sz = 71 // 1-in 2-out OP_TRUE transaction
-	w.Add("A", []I{{"K0", RBFMax}}, 2, KTrue, 2000)    // explicit signalling
-	w.Add("B", []I{{"A:0", Final}}, 2, KTrue, 1000)    // inherits from A while A is unconfirmed
-	w.Add("C", []I{{"B:0", Final}}, 2, KTrue, 500)     // grandchild
-	w.Add("D", []I{{"A:1", Final}}, 3, KTrue, 600)     // fan sibling, 81 bytes
-	w.Add("A1", []I{{"K0", Final}}, 2, KTrue, 4100+sz) // exactly the threshold for evicting {A,B,C,D}; does not signal itself
-	w.Add("A2", []I{{"K0", RBFMax}}, 2, KTrue, 3000+sz-1) // one satoshi below the threshold for {A,B}; fine for {A} and {A,D}
-	w.Add("E", []I{{"K1", Final}}, 2, KTrue, 0)        // free, non-signalling
-	w.Add("E1", []I{{"K1", NoRBF}}, 2, KTrue, 50000)   // conflicts with E, never allowed to replace it
-	w.Add("B1", []I{{"A:0", Final}}, 2, KTrue, 1500+sz) // exactly the threshold for {B,C}; B only signals through A
+	const sz = 71                                                  // 1-in 2-out OP_TRUE transaction
+	w.Add("A", []I{{"K0", RBFMax}}, 2, KTrue, 2000)                // explicit signalling
+	w.Add("B", []I{{"A:0", Final}}, 2, KTrue, 1000)                // inherits from A while A is unconfirmed
+	w.Add("C", []I{{"B:0", Final}}, 2, KTrue, 500)                 // grandchild
+	w.Add("D", []I{{"A:1", Final}}, 3, KTrue, 600)                 // fan sibling, 81 bytes
+	w.Add("A1", []I{{"K0", Final}}, 2, KTrue, 4100+sz)             // exactly the threshold for evicting {A,B,C,D}; does not signal itself
+	w.Add("A2", []I{{"K0", RBFMax}}, 2, KTrue, 3000+sz-1)          // one satoshi below the threshold for {A,B}; fine for {A} and {A,D}
+	w.Add("E", []I{{"K1", Final}}, 2, KTrue, 0)                    // free, non-signalling
+	w.Add("E1", []I{{"K1", NoRBF}}, 2, KTrue, 50000)               // conflicts with E, never allowed to replace it
+	w.Add("B1", []I{{"A:0", Final}}, 2, KTrue, 1500+sz)            // exactly the threshold for {B,C}; B only signals through A
 	w.Add("O", []I{{"K1", Final}, {"A:1", Final}}, 2, KTrue, 3000) // conflicts with E/E1 (K1) and D (A:1); orphan while A is missing
 	for _, t := range w.Txs {
 		want := int64(sz)
@@ -498,8 +498,8 @@ func StdWorld(b *Base) *World {
 	w.Add("SE", []I{{"P0", Final}}, 2, KPKH, 4000)
 	w.Add("SE1", []I{{"P0", NoRBF}}, 1, KWPKH, 90000)
 	w.Add("SO", []I{{"SA:1", Final}, {"W1", Final}}, 2, KWPKH, 5000)
-	w.Add("NS", []I{{"K4", Final}}, 2, KWPKH, 5000)  // non-standard input script
-	w.Add("NT", []I{{"W2", Final}}, 2, KTrue, 5000)  // non-standard output script
+	w.Add("NS", []I{{"K4", Final}}, 2, KWPKH, 5000) // non-standard input script
+	w.Add("NT", []I{{"W2", Final}}, 2, KTrue, 5000) // non-standard output script
 	w.MineSets = [][]string{{"SA"}}
 	w.ReorgSets = [][]string{{}}
 	return w.Seal()
